@@ -647,6 +647,11 @@ def run(ck):
     # the history index rule of dict_get/dict_repeat (an off-by-one reads buf[-1]) and the fill level
     from . import C03
     C03.check_dict_siblings(ck, prog)
+    # no coder reads a member that nothing in the session has stored to ("uninitialised memory access")
+    from . import reinit
+    ck.rule("C04-READFIRST", "what a coding function can read before storing to it is stored by the init function on every path returning LZMA_OK")
+    reinit.check_read_first(ck, prog, "C04-READFIRST")
+    ck.floor("C04-READFIRST", 90)
     C03.check_dict_fresh(ck, prog, rule="C04-DICTFRESH")
     # the file info decoder never asks for a seek target before the start of the file (rule shared with C13)
     from . import C13
